@@ -60,7 +60,13 @@ def gen(rng, tier, n):
     for _ in range(6 if tier == "quick" else 60):
         n = rng.randint(4, 14)
         cases.append(["kind mem", "plan - -", "cancelresume %d %d %d" % (rng.choice([0, 2, 3, 5, 5, 8]), n, rng.randint(1, n))])
+    for _ in range(4 if tier == "quick" else 40):
+        cases.append(["kind mem", "plan - -", "livechain %s %d %d" % (rng.choice(["mem", "mem", "sqlite"]), rng.randint(2, 9), rng.randint(0, 1))])
     return cases
+
+def gen_livechain(rng, tier, n):
+    """handlers of resumable subscriptions that publish while handling a live event (C03: callbacks may re-enter the bus)"""
+    return [["kind mem", "plan - -", "livechain %s %d %d" % (rng.choice(["mem", "mem", "sqlite"]), rng.randint(2, 9), rng.randint(0, 1))] for _ in range(n)]
 
 def gen_racepub(rng, tier, n):
     return [["kind mem", "plan - -", "racepub %d %d" % (rng.randint(2, 8), rng.choice([100, 300]))] for _ in range(n)]
@@ -70,6 +76,8 @@ def nontrivial(prop, lines, impl):
         return bool(impl) and impl[0] == "racepub ok"
     if any(l.startswith("cancelresume") for l in lines):
         return bool(impl) and impl[0] == "cancelresume ok"
+    if any(l.startswith("livechain") for l in lines):
+        return bool(impl) and impl[0] == "livechain ok"
     return bool(impl) and any(l.startswith("id ") and "delivered=-" not in l for l in impl) and any(l == "restart" for l in lines[:-3])
 
 def property_fails(prop, lines, impl, model):
